@@ -350,6 +350,40 @@ def _snap_node(s, tree, target):
     raise KeyError(target)
 
 
+def near_choices(choices):
+    """Strings one small edit away from an allowed choice: every ASCII
+    punctuation / whitespace / NUL character appended, prepended or followed
+    by a parameter, case variants, truncations, doublings, joined choices."""
+    import string
+    out = []
+    seen = set(choices)
+
+    def add(x):
+        if x not in seen:
+            seen.add(x)
+            out.append(x)
+    add('')
+    for c in choices:
+        for p in string.punctuation + ' \t\n\r\x00\xa0':
+            add(c + p)
+            add(p + c)
+            add(c + p + ' charset=utf-8')
+            add(c + p + c)
+        add(c.title())
+        add(c.capitalize())
+        add(c.swapcase())
+        add(c[:-1])
+        add(c[1:])
+        add(c + c[-1])
+        add(c + c)
+        for part in c.replace('/', ' ').replace('-', ' ').split():
+            add(part)
+        for o in choices:
+            for sep in (',', ';', ' ', '|', '/', '+'):
+                add(c + sep + o)
+    return out
+
+
 def candidates(typ, choices):
     out = []
     if choices:
@@ -358,6 +392,7 @@ def candidates(typ, choices):
         out.append(('bogus-choice', False))
         if choices[0].upper() not in choices:
             out.append((choices[0].upper(), False))
+        out.extend((x, False) for x in near_choices(choices))
     else:
         for x in VALUES[typ]:
             out.append((x, True))
